@@ -1780,6 +1780,23 @@ func c13ConstIndex(c *Ctx, g *load.G) {
 	r.Min("C13-j constant subscripts", 2, n)
 }
 
+// assignedBetween: x is assigned (re-sliced, replaced) in the block between the two positions: what a test proved
+// about its length before no longer holds (`if len(v) > 0 { if v[0] == c { v = v[1:] }; … v[len(v)-1] … }`).
+func assignedBetween(body ast.Node, x string, from, to token.Pos) bool {
+	found := false
+	ast.Inspect(body, func(n ast.Node) bool {
+		if as, ok := n.(*ast.AssignStmt); ok && as.Pos() >= from && as.End() <= to {
+			for _, l := range as.Lhs {
+				if nospace(l) == x {
+					found = true
+				}
+			}
+		}
+		return true
+	})
+	return found
+}
+
 // lenTestProves: a conjunct of cond proves len(x) >= 1.
 func lenTestProves(cond, x string) bool {
 	for _, cj := range strings.Split(cond, "&&") {
@@ -1818,7 +1835,7 @@ func nonEmptyProvedAt(g *load.G, pkg *packages.Package, fd *ast.FuncDecl, node a
 				proved = "left conjunct " + nospace(p.X)
 			}
 		case *ast.IfStmt:
-			if p.Body.Pos() <= node.Pos() && node.End() <= p.Body.End() && lenTestProves(nospace(p.Cond), x) {
+			if p.Body.Pos() <= node.Pos() && node.End() <= p.Body.End() && lenTestProves(nospace(p.Cond), x) && !assignedBetween(p.Body, x, p.Body.Pos(), node.Pos()) {
 				proved = "enclosing if " + nospace(p.Cond)
 			}
 		case *ast.CaseClause:
